@@ -176,6 +176,9 @@ def run(m, chk):
     # 3. V1 -------------------------------------------------------------------------------------
     v1(r, chk)
 
+    from .extra import mult_keep
+
+    mult_keep(r, chk, sorted(f.qual for f in r.prog.all_functions() if f.module in ("heavy", "knotspace") and f.cls is not None and f.cls.name in ("ImmutableKnotVector", "KnotVector", "GeneratorKnotVector")), floor=10)
     # 4. X-INDEX ---------------------------------------------------------------------------------
     scans = []
     for q in (valq, newq):
